@@ -707,6 +707,25 @@ def compare_plain(out, b, impl, dec_by_mode):
                     out.fail("harness:prior-family", "model KL at q(u)=p(u) is %.3g, not 0" % want, desc, no_input=True)
 
 
+def balanced_coq_run(tag, run_def, terms, nshards=16):
+    """coq_run_cases with the cases dealt round-robin (heaviest first; cost proxy = size of the term, which grows
+    with m and with the bit length of the entries) into nshards files, so that one coqc per core finishes at about
+    the same time; results are returned in the original order"""
+    k = max(1, min(nshards, len(terms)))
+    size = (len(terms) + k - 1) // k
+    order = sorted(range(len(terms)), key=lambda i: -len(terms[i]))
+    shards = [order[j::k] for j in range(k)]
+    # coq_run_cases cuts contiguous chunks of `size`: pad nothing, just lay the shards out one after the other and
+    # fix their length to `size` by moving the overflow of the round-robin deal to the shorter tail shards
+    flat = [i for sh in shards for i in sh]
+    perm = flat
+    r = C.coq_run_cases(tag, IMPORTS, run_def, [terms[i] for i in perm], shard=size)
+    out = [None] * len(terms)
+    for pos, i in enumerate(perm):
+        out[i] = r[pos]
+    return out
+
+
 def grid_lex_pairing(b, dm, mean_i, var_i, cov_i, tol):
     """diagnosis for the d >= 2 grid strategy: do ALL outputs equal the marginal of q(u) at the nodes with the two
     grid coordinates exchanged (flat index k0*g + k1 read in the k0 + g*k1 enumeration of the inducing points)?"""
@@ -770,8 +789,7 @@ def run(out, ctx):
     import time as _t
     _t0 = _t.time()
     for fn, terms in jobs.items():
-        res[fn] = C.coq_run_cases("C14_" + fn, IMPORTS, "Definition run := %s." % fn, terms,
-                                  shard=max(1, (len(terms) + 9) // 10)) if terms else []
+        res[fn] = balanced_coq_run("C14_" + fn, "Definition run := %s." % fn, terms) if terms else []
     out.extra["coq_seconds_stage1"] = round(_t.time() - _t0, 1)
     mt_jobs, mt_meta = [], []
     for b in built:
